@@ -23,6 +23,22 @@ func (exec *BlockExecutor) VerifProcess(ev *pb.CommitEvent) {
 
 func (exec *BlockExecutor) VerifHeight() uint64 { return exec.currentHeight }
 
+// VerifVerifyProofs runs the executor's proof-verification fan-out over the given transactions as the next block's (nothing is
+// executed) and returns what it recorded: block position -> reason
+func (exec *BlockExecutor) VerifVerifyProofs(txs []pb.Transaction) map[int]string {
+	w := &BlockWrapper{
+		block: &pb.Block{BlockHeader: &pb.BlockHeader{Number: exec.currentHeight + 1},
+			Transactions: &pb.Transactions{Transactions: txs}},
+		invalidTx: map[int]agency.InvalidReason{},
+	}
+	exec.verifyProofs(w)
+	out := map[int]string{}
+	for k, v := range w.invalidTx {
+		out[k] = string(v)
+	}
+	return out
+}
+
 func (exec *BlockExecutor) VerifServiceCacheKeys() []string {
 	var ks []string
 	exec.serviceCache.Range(func(k, v interface{}) bool {
